@@ -6,6 +6,7 @@ import Proofs.TieImages
 import Proofs.TieSite
 import Proofs.SrcC03
 import Proofs.TieShapeDispatch
+import Proofs.TieOps
 #print axioms PV.Proofs.C03.declared_lj_constants
 #print axioms PV.Proofs.C03.w_eval
 #print axioms PV.Proofs.C03.score_unfold
@@ -45,4 +46,15 @@ import Proofs.TieShapeDispatch
 #print axioms PV.Proofs.Tie.shape_intersects_tie
 #print axioms PV.Proofs.Tie.shape_area_tie
 #print axioms PV.Proofs.Tie.shape_radius_tie
+#print axioms PV.Proofs.Tie.shape_transform_tie
 #print axioms PV.Proofs.Tie.shape_energy_tie
+#print axioms PV.Proofs.Tie.declared_translated_ops
+#print axioms PV.Proofs.Tie.atom2_mul_right_tie
+#print axioms PV.Proofs.Tie.atom2_mul_left_tie
+#print axioms PV.Proofs.Tie.line2_mul_right_tie
+#print axioms PV.Proofs.Tie.line2_mul_left_tie
+#print axioms PV.Proofs.Tie.lj2_mul_right_tie
+#print axioms PV.Proofs.Tie.lj2_mul_left_tie
+#print axioms PV.Proofs.Tie.lineshape_transform_tie
+#print axioms PV.Proofs.Tie.molshape_transform_tie
+#print axioms PV.Proofs.Tie.ljshape_transform_tie
